@@ -161,4 +161,4 @@ def run(ctx):
     ctx.probe_findings(replay)
     cfg = dict(BASE_CFG)
     cfg["closed"] = set(ctx.closed)
-    ctx.campaign("main", gen.programs(cfg), make_oracle(ctx), max_examples=ctx.n(300, 40000))
+    ctx.campaign("main", gen.programs(cfg), make_oracle(ctx), max_examples=ctx.n(900, 40000))
